@@ -55,15 +55,42 @@ DEFAULT_PROFILE = {
     'fun_unq_import': False,           # function reached through an unqualified USE
     'member_type_unq': False,          # derived-type member whose type is visible through an unqualified USE
     'unq_twice': False,                # the same module USEd unqualified at module and at routine level
+    'nested_tbp_unq': False,           # binding of a nested member called on a variable whose type comes from an unqualified USE
     'type_rename': False,              # derived type imported under another name (a full parse resolves the original name)
     'case_twin_files': False,          # two files whose paths differ only in letter case
     'dupes_same_file': False,          # two modules with a same-named procedure in one file
 }
 
 
+BOOST_VIA = {
+    'unq_interface_call': ('gcall', ['r_unq', 'm_unq']),
+    'iface_module_level_import': ('gcall', ['m_only', 'm_rename']),
+    'fun_unq_import': ('fcall', ['r_unq', 'm_unq']),
+    'fun_module_level_import': ('fcall', ['m_only', 'm_rename']),
+    'type_rename': ('tbp', ['r_rename', 'm_rename']),
+    'nested_tbp_unq': ('tbp', ['r_unq', 'm_unq']),
+    'unq_generic_specific': ('call', ['r_unq', 'm_unq']),
+    'unq_twice': ('any', ['r_unq', 'm_unq']),
+    'member_type_unq': ('member', ['m_unq']),
+}
+BOOST_KIND = {'unq_interface_call': 'gcall', 'iface_same_module': 'gcall', 'iface_module_level_import': 'gcall',
+              'fun_unq_import': 'fcall', 'fun_module_level_import': 'fcall', 'fun_calls_fun': 'fcall',
+              'type_rename': 'tbp', 'nested_tbp_unq': 'tbp', 'member_type_unq': 'tbp'}
+
+
+def _prefer(p, kind):
+    bv = BOOST_VIA.get(p.get('boost'))
+    if bv and bv[0] in (kind, 'any'):
+        return bv[1]
+    return None
+
+
 def profile(**kw):
     p = dict(DEFAULT_PROFILE)
     p.update(kw)
+    on = [k for k, v in kw.items() if v is True and DEFAULT_PROFILE.get(k) is False]
+    if len(on) == 1:
+        p['boost'] = on[0]      # make the single extra trigger frequent
     return p
 
 
@@ -120,14 +147,14 @@ def projects(draw, prof=None):
         if dupe_left and b.chance(7):
             mod['routines'].insert(b.integer(0, len(mod['routines'])), _new_routine('kern', 'sub'))
             dupe_left -= 1
-        if p['functions'] and b.chance(4):
+        if p['functions'] and b.chance(8 if BOOST_KIND.get(p.get('boost')) == 'fcall' else 4):
             mod['routines'].append(_new_routine(f'f{L}0', 'fun'))
         if p['module_vars']:
             mod['vars'] = [f'nv{L}{j}' for j in range(b.integer(0, 2))]
         if p['types']:
-            for j in range(b.integer(0, 2) if b.chance(6) else 0):
+            for j in range(b.integer(0, 2) if b.chance(9 if BOOST_KIND.get(p.get('boost')) == 'tbp' else 6) else 0):
                 mod['types'].append({'name': f't{L}{j}', 'members': [], 'bindings': []})
-        if p['interfaces'] and b.chance(3):
+        if p['interfaces'] and b.chance(8 if p.get('boost') in ('unq_interface_call', 'iface_same_module', 'iface_module_level_import', 'unq_generic_specific') else 3):
             subs = [r['name'] for r in mod['routines'] if r['kind'] == 'sub' and r['name'] != 'kern']
             if subs:
                 procs = [b.pick(subs)]
@@ -152,12 +179,12 @@ def projects(draw, prof=None):
             # members of (earlier types of the same module | types of later modules)
             cands = [(m['name'], tt['name']) for tt in m['types'][:ti]]
             cands += [(mm['name'], tt['name']) for mm in later_mods for tt in mm['types']]
-            if cands and b.chance(5):
+            if cands and b.chance(9 if p.get('boost') in ('member_type_unq', 'nested_tbp_unq') else 5):
                 tm, tn = b.pick(cands)
                 local = tn
                 if tm != m['name']:
                     via = _pick_via(b, p, in_module=True, module_only=True, tm=tm, is_type=True,
-                                    no_unq=not p['member_type_unq'])
+                                    no_unq=not p['member_type_unq'], prefer=_prefer(p, 'member'))
                     local = _import_entity(b, m, None, tm, tn, via)
                 t['members'].append({'name': f'c{len(t["members"])}', 'type': local, 'target': f'{tm}#{tn}'})
             nb = b.integer(0, 2)
@@ -224,6 +251,9 @@ def projects(draw, prof=None):
                 kinds += ['xcall'] if b.chance(2) else []
             if not kinds:
                 break
+            bk = BOOST_KIND.get(p.get('boost'))
+            if bk in kinds:
+                kinds += [bk] * 8
             k = b.pick(kinds)
             in_module = m is not None
             if k == 'call':
@@ -237,7 +267,8 @@ def projects(draw, prof=None):
                     r['body'].append({'k': 'call', 'name': tn, 'target': f'{tm}#{tn}', 'via': 'same'})
                 else:
                     via = _pick_via(b, p, in_module, force_rename=(tn == 'kern'),
-                                    no_unq=((tm, tn) in specifics and not p['unq_generic_specific']), tm=tm)
+                                    no_unq=((tm, tn) in specifics and not p['unq_generic_specific']), tm=tm,
+                                    prefer=_prefer(p, 'call'))
                     local = _import_entity(b, m, r, tm, tn, via)
                     r['body'].append({'k': 'call', 'name': local, 'target': f'{tm}#{tn}', 'via': via})
             elif k == 'fcall':
@@ -246,17 +277,18 @@ def projects(draw, prof=None):
                     r['body'].append({'k': 'fcall', 'name': tn, 'target': f'{tm}#{tn}', 'via': 'same'})
                 else:
                     via = _pick_via(b, p, in_module, routine_only=not p['fun_module_level_import'], tm=tm,
-                                    no_unq=not p['fun_unq_import'])
+                                    no_unq=not p['fun_unq_import'], prefer=_prefer(p, 'fcall'))
                     local = _import_entity(b, m, r, tm, tn, via)
                     r['body'].append({'k': 'fcall', 'name': local, 'target': f'{tm}#{tn}', 'via': via})
             elif k == 'gcall':
-                tm, tn, procs = b.pick(gens)
+                own_g = [g_ for g_ in gens if m is not None and g_[0] == m['name']]
+                tm, tn, procs = b.pick(own_g if (own_g and p.get('boost') == 'iface_same_module') else gens)
                 real = len(procs) > 1 and b.chance(5)
                 if m is not None and tm == m['name']:
                     r['body'].append({'k': 'gcall', 'name': tn, 'target': f'{tm}#{tn}', 'via': 'same', 'real': real})
                 else:
                     via = _pick_via(b, p, in_module, no_unq=not p['unq_interface_call'], tm=tm,
-                                    routine_only=not p['iface_module_level_import'])
+                                    routine_only=not p['iface_module_level_import'], prefer=_prefer(p, 'gcall'))
                     local = _import_entity(b, m, r, tm, tn, via)
                     r['body'].append({'k': 'gcall', 'name': local, 'target': f'{tm}#{tn}', 'via': via, 'real': real})
             elif k == 'tbp':
@@ -264,7 +296,7 @@ def projects(draw, prof=None):
                 if m is not None and tm == m['name']:
                     local, via = t['name'], 'same'
                 else:
-                    via = _pick_via(b, p, in_module, tm=tm, is_type=True)
+                    via = _pick_via(b, p, in_module, tm=tm, is_type=True, prefer=_prefer(p, 'tbp'))
                     local = _import_entity(b, m, r, tm, t['name'], via)
                 var = f'o{nobj}'
                 nobj += 1
@@ -272,6 +304,8 @@ def projects(draw, prof=None):
                 # walk members to a type with bindings
                 path, cur_m, cur_t = [], tm, t
                 for _depth in range(2):
+                    if via.endswith('_unq') and not p['nested_tbp_unq']:
+                        break
                     if cur_t['members'] and (not cur_t['bindings'] or b.chance(4)):
                         mem = cur_t['members'][0]
                         path.append(mem['name'])
@@ -380,7 +414,7 @@ def _binding_proc_kind(mod, bnd):
 
 
 def _pick_via(b, p, in_module, force_rename=False, no_unq=False, module_only=False, routine_only=False, tm=None,
-              is_type=False):
+              is_type=False, prefer=None):
     no_unq = no_unq or tm in b.no_unq_modules
     opts = []
     no_rename = is_type and not p['type_rename']
@@ -398,6 +432,9 @@ def _pick_via(b, p, in_module, force_rename=False, no_unq=False, module_only=Fal
             opts += ['m_unq']
     if force_rename:
         opts = [o for o in opts if o.endswith('rename')] or (['m_rename'] if module_only else ['r_rename'])
+    pref = [o for o in opts if o in (prefer or ())]
+    if pref and b.chance(8):
+        return b.pick(pref)
     return b.pick(opts)
 
 
@@ -832,7 +869,9 @@ def configs(draw, proj, prof=None, n_seeds=(1, 2), allow_prune=True, strict=None
         # procedures reached through an unqualified USE somewhere: loki applies disable/block entries to them
         # only in the plain and scope#name forms (listed findings of C21); `safe` keeps other forms away
         unq_targets = sorted({s_['target'] for _, r_ in routines for s_ in r_['body']
-                              if s_.get('via', '').endswith('_unq') and s_['k'] in ('call', 'fcall', 'gcall')})
+                              if s_.get('via', '').endswith('_unq') and s_['k'] in ('call', 'fcall', 'gcall', 'tbp')}
+                             | {d_['target'] for _, r_ in routines for d_ in r_['decls']
+                                if d_.get('via', '').endswith('_unq')})
 
         def unsafe(key, kind):
             if not safe:
